@@ -45,6 +45,10 @@ def one_case(case):
                 res['problems'].append((kind, 'tacd did not start (exit status %s): %s' % (t.p.poll(), err[-400:])))
                 return res
             steps = [{'do': 'tls', 'alpn': o, 'connect_tries': 40} for o in case['offers']]
+            # some validation agents speak TLS 1.2 at most (RFC 8737 asks for 1.2 or higher; the shipped responder itself does not negotiate 1.3)
+            for k, lim in enumerate(case.get('tls_limits') or []):
+                if k < len(steps):
+                    steps[k].update(lim)
             steps += [{'do': 'tls', 'alpn': o, 'connect_tries': 40} for o in case['foreign']]
             # some instances see many refused clients and are then asked again by a validating one
             again = case.get('refusals_then_valid', 0)
@@ -64,11 +68,15 @@ def one_case(case):
                 res['observed'] += 1
                 for p in T.judge_valid(extra[-1], case['want_name'], case['digest_hex'], case['key_type'], case['digest']):
                     res['problems'].append(('valid-offer', 'offer %r after %d refused clients: %s' % (case['offers'][0], again, p)))
-            for s, o in zip(st[:len(case['offers'])], case['offers']):
+            for k, (s, o) in enumerate(zip(st[:len(case['offers'])], case['offers'])):
                 pb = T.judge_valid(s, case['want_name'], case['digest_hex'], case['key_type'], case['digest'])
                 res['observed'] += 1
+                lim = (case.get('tls_limits') or [])[k:k + 1]
+                ver = ((s.get('result') or {}).get('version') or '?')
+                res.setdefault('versions', {})
+                res['versions'][ver] = res['versions'].get(ver, 0) + 1
                 for p in pb:
-                    res['problems'].append(('valid-offer', 'offer %r: %s' % (o, p)))
+                    res['problems'].append(('valid-offer', 'offer %r%s: %s' % (o, (' by a client limited to %s' % lim[0]) if lim and lim[0] else '', p)))
             for s, o in zip(st[len(case['offers']):], case['foreign']):
                 r = s.get('result') or {}
                 if not s.get('connected'):
@@ -110,6 +118,7 @@ def gen_cases(tier):
             'listener': 'unix' if i % 2 else 'tcp',
             'domain_via': vias[(i // 2) % 3], 'ext_via': vias[(i // 6) % 3],
             'offers': offers, 'foreign': [foreign[i % len(foreign)]],
+            'tls_limits': [{}, {'max_tls': '1.2'}, {}, {'max_tls': '1.2'}] if i % 2 == 0 else [{'max_tls': '1.2'}, {}, {}, {}],
             'refusals_then_valid': r.choice([40, 70, 130]) if i % 10 == 3 else 0,
         })
     return cases
@@ -125,6 +134,8 @@ def run(tier):
         chk.evaluations += 1
         chk.count('handshakes_judged', res['observed'])
         chk.count('foreign_only_refused', res['refused'])
+        for ver, nn in (res.get('versions') or {}).items():
+            chk.count('handshakes_negotiated_%s' % ver, nn)
         if res['observed']:
             chk.distinct.add((c['key_type'], c['digest'], c['listener'], c['domain_via'], c['ext_via'],
                               'idn' if not c['domain'].isascii() else ('mixed' if c['domain'] != c['domain'].lower() else 'ascii')))
